@@ -28,6 +28,9 @@ thread_local! {
     /// 0 = every offered event has an id of its own; k > 0 = ids repeat with period k (a source that re-delivers, a
     /// replay, hand-built events): the statement speaks about every OFFERED event, whatever it is called
     static ID_MOD: std::cell::Cell<usize> = const { std::cell::Cell::new(0) };
+    /// 0: every event has sequence number 0 (what the constructors give); k > 0: the source numbers its events
+    /// 1 + i mod k -- equal non-zero sequence numbers from one source recur (a source that restarts its numbering)
+    static SEQ_MOD: std::cell::Cell<usize> = const { std::cell::Cell::new(0) };
 }
 
 fn ev_id(i: usize) -> String {
@@ -44,7 +47,7 @@ fn ev(i: usize, ts: u64) -> StreamEvent {
         id: ev_id(i),
         event_type: "T".into(),
         data: HashMap::new(),
-        metadata: EventMetadata { timestamp: ts, source: "s".into(), sequence: 0, tags: HashMap::new() },
+        metadata: EventMetadata { timestamp: ts, source: "s".into(), sequence: SEQ_MOD.with(|c| if c.get() == 0 { 0 } else { 1 + (i % c.get()) as u64 }), tags: HashMap::new() },
     }
 }
 
@@ -53,6 +56,9 @@ fn gen(s: &mut Src, exh: u32) -> (Wm, Late, Vec<u64>) {
     // drawn last: one case in five re-uses event ids (period 1..3)
     let k = if exh == 0 && s.chance(1, 5) { 1 + s.below(3) } else { 0 };
     ID_MOD.with(|c| c.set(k));
+    // drawn after that: one case in five carries sequence numbers (period 1..3, non-zero)
+    let q = if exh == 0 && s.chance(1, 5) { 1 + s.below(3) } else { 0 };
+    SEQ_MOD.with(|c| c.set(q));
     r
 }
 
@@ -158,7 +164,7 @@ pub fn run(s: &mut Src, ctx: &mut Ctx) -> Verdict {
     // and `w - t <= L + r` exactly when `w - t <= L` -- the rest must change nothing that can be observed.
     let (rest_d, rest_l) = sub_ms_rest(&ts);
     let rest_txt = if rest_d + rest_l > 0 { format!(" sub-millisecond rest: delay +{} us, lateness +{} us", rest_d, rest_l) } else { String::new() };
-    ctx.describe(|| format!("watermark={:?} late={:?} timestamps={:?}{}{}", wm, late, ts, if idk > 0 { format!(" event ids repeat with period {}", idk) } else { String::new() }, rest_txt));
+    ctx.describe(|| format!("watermark={:?} late={:?} timestamps={:?}{}{}", wm, late, ts, if idk > 0 { format!(" event ids repeat with period {}", idk) } else { String::new() }, format!("{}{}", rest_txt, SEQ_MOD.with(|c| if c.get() > 0 { format!(" sequence numbers 1 + i mod {}", c.get()) } else { String::new() }))));
     if rest_d + rest_l > 0 {
         ctx.label("sub-millisecond-rest");
     }
@@ -319,6 +325,7 @@ pub fn run(s: &mut Src, ctx: &mut Ctx) -> Verdict {
 /// on how long the sleep actually took).
 pub fn run_periodic(s: &mut Src, ctx: &mut Ctx) -> Verdict {
     ID_MOD.with(|c| c.set(0));
+    SEQ_MOD.with(|c| c.set(0));
     let interval_ms = 1 + s.below(2) as u64;
     let late = match s.below(4) {
         0 => Late::Drop,
@@ -438,7 +445,7 @@ pub fn run_components(s: &mut Src, ctx: &mut Ctx) -> Verdict {
     let idk = ID_MOD.with(|c| c.get());
     let (rest_d, rest_l) = sub_ms_rest(&ts);
     let rest_txt = if rest_d + rest_l > 0 { format!(" sub-millisecond rest: delay +{} us, lateness +{} us", rest_d, rest_l) } else { String::new() };
-    ctx.describe(|| format!("components watermark={:?} late={:?} steps (timestamp, drain-side-output-first) {:?}{}{}", wm, late, ts.iter().zip(drains.iter()).collect::<Vec<_>>(), if idk > 0 { format!(" event ids repeat with period {}", idk) } else { String::new() }, rest_txt));
+    ctx.describe(|| format!("components watermark={:?} late={:?} steps (timestamp, drain-side-output-first) {:?}{}{}", wm, late, ts.iter().zip(drains.iter()).collect::<Vec<_>>(), if idk > 0 { format!(" event ids repeat with period {}", idk) } else { String::new() }, format!("{}{}", rest_txt, SEQ_MOD.with(|c| if c.get() > 0 { format!(" sequence numbers 1 + i mod {}", c.get()) } else { String::new() }))));
     if rest_d + rest_l > 0 {
         ctx.label("sub-millisecond-rest");
     }
